@@ -1,4 +1,5 @@
 import AsherahVerif.Proofs.EnvResList
+import AsherahVerif.Proofs.EnvResE2
 /-
 C09 — the resource invariant.
 
@@ -29,11 +30,22 @@ structure CTab where
 
 def cntOf (T : CTab) (h : Nat → Int) (w : World) (o : Nat) : Int := (entCount T.dead w.caches o : Int) + h o
 
+/-- a bounded key cache and its eviction policy (the E2 cache model) agree: the policy is
+well-formed, open and expiry-free, and its keys are exactly the slots of the cached entries. -/
+structure BOK (kc : KeyCache) : Prop where
+  inv : Cache.Inv kc.pol
+  live : kc.pol.closing = false
+  noexp : kc.pol.expiry = 0
+  slots : kc.slots.Nodup
+  valid : ∀ s, s ∈ Cache.keysOf kc.pol.items → s < kc.slots.length
+  keys : ∀ m : KeyMeta, m ∈ kc.ents.map (·.1) ↔ ∃ s, kc.slots[s]? = some m ∧ s ∈ Cache.keysOf kc.pol.items
+
 structure CacheOK (keys : List KeyObj) (kc : KeyCache) : Prop where
   entKey : ∀ (m : KeyMeta) (e : CEntry), (m, e) ∈ kc.ents → ∃ k : KeyObj, keys[e.obj]? = some k ∧ k.created = m.created
   nodup : (kc.ents.map (·.1)).Nodup
   latest : ∀ kid l, (kid, l) ∈ kc.latest → l.kid = kid
   nev : kc.mode = .never → kc.ents = []
+  bnd : kc.mode = .bounded → BOK kc
 
 def Raw.extra : Raw → Nat
   | .sec _ => 1
@@ -52,7 +64,6 @@ structure RIc (T : CTab) (raw : Raw) (h : Nat → Int) (w : World) : Prop where
   hval : ∀ o, h o ≠ 0 → o < w.keys.length
   ents : ∀ (c : Nat) (kc : KeyCache), w.caches[c]? = some kc → T.dead c = false → CacheOK w.keys kc
   mode : ∀ c, (w.caches.getD c default).mode = T.mode c
-  nb : ∀ c, T.mode c ≠ .bounded
   clen : w.caches.length = T.n
 
 /-- holds as a list of object indices (with multiplicity). -/
@@ -66,7 +77,7 @@ theorem CacheOK.mono {keys keys' : List KeyObj} {kc : KeyCache} (h : CacheOK key
   ⟨fun m e hme => by
       obtain ⟨k, hk1, hk2⟩ := h.entKey m e hme
       obtain ⟨k', h1, h2⟩ := hk _ _ hk1
-      exact ⟨k', h1, h2.trans hk2⟩, h.nodup, h.latest, h.nev⟩
+      exact ⟨k', h1, h2.trans hk2⟩, h.nodup, h.latest, h.nev, h.bnd⟩
 
 /-- live entries point to existing objects. -/
 theorem RIc.entCount_zero_of_ge {T : CTab} {raw : Raw} {h : Nat → Int} {w : World} (hi : RIc T raw h w)
@@ -96,8 +107,8 @@ theorem RIc.cnt_zero_of_ge {T : CTab} {raw : Raw} {h : Nat → Int} {w : World} 
 /-- the invariant only looks at `keys`, `secrets`, `caches`. -/
 theorem RIc.frame {T : CTab} {raw : Raw} {h : Nat → Int} {w w' : World} (hi : RIc T raw h w)
     (hk : w'.keys = w.keys) (hs : w'.secrets = w.secrets) (hc : w'.caches = w.caches) : RIc T raw h w' := by
-  obtain ⟨a1, a2, a3, a4, a5, a6, a7, a8, a9, a10, a11⟩ := hi
-  refine ⟨?_, ?_, ?_, ?_, ?_, ?_, ?_, ?_, ?_, a10, by rw [hc]; exact a11⟩
+  obtain ⟨a1, a2, a3, a4, a5, a6, a7, a8, a9, a11⟩ := hi
+  refine ⟨?_, ?_, ?_, ?_, ?_, ?_, ?_, ?_, ?_, by rw [hc]; exact a11⟩
   · rw [hk, hs]; exact a1
   · rw [hk]; exact a2
   · rw [hk]; exact a3
@@ -117,12 +128,11 @@ theorem RIc.congr_T {T T' : CTab} {raw : Raw} {h : Nat → Int} {w : World} (hi 
     (hd : ∀ c, c < w.caches.length → T.dead c = T'.dead c) (hm : ∀ c, T.mode c = T'.mode c) (hn : T.n = T'.n) : RIc T' raw h w := by
   have hcnt : ∀ o, cntOf T' h w o = cntOf T h w o := by
     intro o; unfold cntOf; rw [entCount_congr w.caches o hd]
-  refine ⟨hi.len, hi.rawSec, hi.rawObj, hi.sec, hi.led, ?_, hi.hval, ?_, ?_, ?_, by rw [← hn]; exact hi.clen⟩
+  refine ⟨hi.len, hi.rawSec, hi.rawObj, hi.sec, hi.led, ?_, hi.hval, ?_, ?_, by rw [← hn]; exact hi.clen⟩
   · intro o k hk; simp only [hcnt]; exact hi.acc o k hk
   · intro c kc hc hdc
     exact hi.ents c kc hc (by rw [hd c (getElem?_lt hc)]; exact hdc)
   · intro c; rw [← hm]; exact hi.mode c
-  · intro c; rw [← hm]; exact hi.nb c
 
 /-! ### allocation -/
 
@@ -132,7 +142,7 @@ theorem RIc.allocSecret {T : CTab} {h : Nat → Int} {w w' : World} (hi : RIc T 
     (hk : w'.keys = w.keys) (hs : w'.secrets = w.secrets ++ [x]) (hc : w'.caches = w.caches) :
     RIc T (.sec w.secrets.length) h w' := by
   have hlen : w.secrets.length = w.keys.length := by simpa [Raw.extra] using hi.len
-  refine ⟨?_, ?_, ?_, ?_, ?_, ?_, ?_, ?_, ?_, hi.nb, by rw [hc]; exact hi.clen⟩
+  refine ⟨?_, ?_, ?_, ?_, ?_, ?_, ?_, ?_, ?_, by rw [hc]; exact hi.clen⟩
   · rw [hk, hs]; simp [Raw.extra, hlen]
   · intro s hs'; cases hs'; rw [hk]; exact hlen
   · intro o ho; cases ho
@@ -166,7 +176,7 @@ theorem RIc.allocKey {T : CTab} {h : Nat → Int} {w w' : World} {s : Nat} (hi :
   have hs0 : s = w.keys.length := hi.rawSec s rfl
   have hlen : w.secrets.length = w.keys.length + 1 := by simpa [Raw.extra] using hi.len
   have hcnt0 : cntOf T h w w.keys.length = 0 := hi.cnt_zero_of_ge (Nat.le_refl _)
-  refine ⟨?_, ?_, ?_, ?_, ?_, ?_, ?_, ?_, ?_, hi.nb, by rw [hc]; exact hi.clen⟩
+  refine ⟨?_, ?_, ?_, ?_, ?_, ?_, ?_, ?_, ?_, by rw [hc]; exact hi.clen⟩
   · rw [hk, hs]; simp [Raw.extra, hlen]
   · intro s hs'; cases hs'
   · intro o ho; cases ho; rw [hk]; simp
@@ -250,7 +260,7 @@ theorem RIc.updKey {T : CTab} {raw raw' : Raw} {h h' : Nat → Int} {w w' : Worl
   have hcnt : ∀ o', cntOf T h' w' o' = cntOf T h' w o' := by intro o'; unfold cntOf; rw [hc]
   have hcnt2 : ∀ o', o' ≠ o → cntOf T h' w o' = cntOf T h w o' := by
     intro o' ho'; unfold cntOf; rw [(hh o' ho').1]
-  refine ⟨?_, ?_, ?_, ?_, ?_, ?_, ?_, ?_, ?_, hi.nb, by rw [hc]; exact hi.clen⟩
+  refine ⟨?_, ?_, ?_, ?_, ?_, ?_, ?_, ?_, ?_, by rw [hc]; exact hi.clen⟩
   · rw [hk, hs, setAt_length, hraw.1]; exact hi.len
   · intro s hs'; rw [hk, setAt_length]; exact hi.rawSec s (hraw.2.1 s hs')
   · intro o' ho'; rw [hk, setAt_length]; exact hraw.2.2 o' ho'
@@ -299,7 +309,7 @@ theorem RIc.closeKey {T : CTab} {raw raw' : Raw} {h h' : Nat → Int} {w w' : Wo
   have hcnt : ∀ o', cntOf T h' w' o' = cntOf T h' w o' := by intro o'; unfold cntOf; rw [hc]
   have hcnt2 : ∀ o', o' ≠ o → cntOf T h' w o' = cntOf T h w o' := by
     intro o' ho'; unfold cntOf; rw [(hh o' ho').1]
-  refine ⟨?_, ?_, ?_, ?_, ?_, ?_, ?_, ?_, ?_, hi.nb, by rw [hc]; exact hi.clen⟩
+  refine ⟨?_, ?_, ?_, ?_, ?_, ?_, ?_, ?_, ?_, by rw [hc]; exact hi.clen⟩
   · rw [hk, hs, setAt_length, setAt_length, hraw.1]; exact hi.len
   · intro s hs'; rw [hk, setAt_length]; exact hi.rawSec s (hraw.2.1 s hs')
   · intro o' ho'; rw [hk, setAt_length]; exact hraw.2.2.1 o' ho'
@@ -360,7 +370,7 @@ theorem RIc.updCache {T : CTab} {raw : Raw} {h h' : Nat → Int} {w w' : World} 
     have := entCount_setAt_live (dead := T.dead) kc' o hkc hd
     have := hh o
     omega
-  refine ⟨?_, ?_, ?_, ?_, ?_, ?_, ?_, ?_, ?_, hi.nb, by rw [hc, setAt_length]; exact hi.clen⟩
+  refine ⟨?_, ?_, ?_, ?_, ?_, ?_, ?_, ?_, ?_, by rw [hc, setAt_length]; exact hi.clen⟩
   · rw [hk, hs]; exact hi.len
   · rw [hk]; exact hi.rawSec
   · rw [hk]; exact hi.rawObj
@@ -412,7 +422,7 @@ theorem RIc.kill {T : CTab} {raw : Raw} {h : Nat → Int} {w : World} (hi : RIc 
     have := entCount_kill (dead := T.dead) o hkc hd
     simp only
     omega
-  refine ⟨hi.len, hi.rawSec, hi.rawObj, hi.sec, hi.led, ?_, ?_, ?_, hi.mode, hi.nb, hi.clen⟩
+  refine ⟨hi.len, hi.rawSec, hi.rawObj, hi.sec, hi.led, ?_, ?_, ?_, hi.mode, hi.clen⟩
   · intro o k hk; rw [hcnt]; exact hi.acc o k hk
   · intro o ho
     by_cases h1 : h o = 0
